@@ -19,7 +19,14 @@ SETS = [
     (("STOCH222", None), ("AROON2", None), ("value_range3", None)),
     (("ADX22", None), ("VWAP", "T2"), ("highestbar3", None)),
     (("KC2", None),), (("DON2", "T2"), ("HL2", None)),
+    # a member timeframe FINER than the data spacing under fill: that member has more candles than the default list
+    (("SMA2", "S30"), ("OBV", None), ("FILL", True)),
+    (("TR", "S20"), ("ST2", "T2"), ("FILL", True)),
+    # dots in a user supplied suffix are sanitised like generated ones
+    (("EMA2dot", None), ("positive", "T2")),
 ]
+from ..configs import _c
+BY_LABEL["EMA2dot"] = _c("EMA2dot", "EMA", period=2, smoothing=2.5, name_suffix="s2.5")
 
 
 def names_of(ind):
@@ -111,6 +118,13 @@ def trailing(ind, name):
     return k
 
 
+def build(members):
+    from hexital import Hexital
+    fill = any(l == "FILL" for l, _ in members)
+    inds = [make(BY_LABEL[l], **({"timeframe": t} if t else {})) for l, t in members if l != "FILL"]
+    return Hexital("h", [], inds, **({"timeframe_fill": True} if fill else {}))
+
+
 def explore(item):
     tier, si, first = item
     bind_repo()
@@ -121,7 +135,7 @@ def explore(item):
     for tail in A.words(sigma, n - 1):
         word = first + tail
         raw = raw_stream(word, "+", A.regular_gaps("reg", n, 120), "T2")
-        hx = Hexital("h", [], [make(BY_LABEL[l], **({"timeframe": t} if t else {})) for l, t in members])
+        hx = build(members)
         for pos in range(n):
             try:
                 with deadline(3):
@@ -146,7 +160,7 @@ def replay(case):
     rep = Report()
     members = tuple(tuple(m) for m in case["set"])
     raw = [tuple(r) for r in case["raw"]]
-    hx = Hexital("h", [], [make(BY_LABEL[l], **({"timeframe": t} if t else {})) for l, t in members])
+    hx = build(members)
     try:
         for pos in range(case["pos"]):
             hx.append(fresh(raw[pos:pos + 1])[0])
